@@ -9,7 +9,7 @@ def one(args):
     v, prop = args
     from pv.selftest import _run_one
     r = _run_one((v, prop))
-    rules = sorted(set(re.findall(r"rule=([\\w-]+)", r.get("out", "")))) if r["status"] == "violation" else []
+    rules = sorted(set(re.findall(r"rule=([\w-]+)", r.get("out", "")))) if r["status"] == "violation" else []
     return v["id"], prop, r["status"], rules
 
 
